@@ -48,3 +48,8 @@ T('C04_identities', {'s': 'str', 'N': 'int'},
   'absv(toreal(npos(s, 0, N) - nneg(s, 0, N)) / toreal(N)) <= toreal(npos(s, 0, N) + nneg(s, 0, N)) / toreal(N), '
   'toreal(npos(s, 0, N) + nneg(s, 0, N)) / toreal(N) <= 1)',
   requires=['N >= 1'], uses=['count_partition(s, 0, N)', 'npos_nonneg(s, 0, N)', 'nneg_nonneg(s, 0, N)', 'nneut_nonneg(s, 0, N)'])
+
+# the number of letters before a letter is smaller than the number of letters up to any later point
+L('n_aa_strict', {'u': 'str', 'k': 'int'},
+  'forall(lambda j: implies(is_aa(u[j]), n_aa(u, 0, j) < n_aa(u, 0, k)), 0, k)', ind='k', base='0')
+L('n_aa_nonneg', {'u': 'str', 'lo': 'int', 'hi': 'int'}, 'n_aa(u, lo, hi) >= 0', ind='hi', base='lo')
